@@ -16,6 +16,9 @@ use crate::rng::Rng;
 use crate::util::{self, Outcome};
 use std::fmt::Write as _;
 
+/// G-fields: named operands (struct literals / struct patterns) written in every order
+mod fields;
+
 // ------------------------------------------------------------------ tie
 
 fn tie_line(id: &str, c: &compiler::pipeline::pipeline::Compilation, out: &mut String) {
@@ -1689,6 +1692,8 @@ pub fn main(args: &util::Args) {
         let id = format!("nest:{}:{}:{}:d{}:{:?}:{:?}", args.seed, i, form_name(f), depth, place, wrap);
         emit(&id, &case, &dir, &mut out, &mut stats);
     }
+    // ---- (3d) named operands written in every order (struct literals, struct patterns): c09/fields.rs
+    fields::run(args.seed, thorough, &dir, &mut out, &mut stats);
     writeln!(out, "#FEATS\tgenerated={} accepted={}", stats.generated, stats.accepted).unwrap();
     let _ = std::fs::remove_dir_all(&dir);
     let _ = std::fs::create_dir_all(&args.out);
